@@ -1031,7 +1031,9 @@ func checkT(c TCase, r *vf.R) error {
 				if math.Abs(tm[0]-1) > 1e-9 || math.Abs(tm[4]-1) > 1e-9 || math.Abs(tm[1]) > 1e-9 || math.Abs(tm[3]) > 1e-9 {
 					return vf.Errorf("page %d span %q: text matrix %v is not a translation", pi, sp.span.Text, tm)
 				}
-				if math.Abs(tm[2]-(ox+sp.x)) > 1e-5 || math.Abs(tm[5]-(oy+sp.y)) > 1e-5 {
+				// the writer prints eight significant digits: one unit of the eighth digit of the larger coordinate
+				ptol := 1e-5 + 1e-7*math.Max(math.Abs(ox+sp.x), math.Abs(oy+sp.y))
+				if math.Abs(tm[2]-(ox+sp.x)) > ptol || math.Abs(tm[5]-(oy+sp.y)) > ptol {
 					return vf.Errorf("page %d span %q: text starts at (%v,%v), the span is laid out at (%v,%v)", pi, sp.span.Text, tm[2], tm[5], ox+sp.x, oy+sp.y)
 				}
 				// decode the shown glyphs and pen positions
